@@ -46,6 +46,9 @@ def run(chk):
             # then drops the error when the request is complete): the rows must be right or the error reported
             if k % (1 if thorough else 3) == 0:
                 ops.append("zoo-read %s %s faild=%d" % (c.zoo.name, c.impl_file, k)); meta.append((c, k, ph[k - 1], True))
+            # the failing call reports io.EOF: a source that ends early is a failed read like any other
+            if k % (1 if thorough else 2) == 0:
+                ops.append("zoo-read %s %s faile=%d" % (c.zoo.name, c.impl_file, k)); meta.append((c, k, ph[k - 1], False))
     res = common.chunked_parallel(pair.impl, ops, workers=8, chunk=300)
     nontrivial = set()
     for (c, k, ph, with_data), r in zip(meta, res):
@@ -73,7 +76,7 @@ def run(chk):
         "obligations": pr["obligations"], "discharged": pr["discharged"], "axioms": pr["axioms"],
         "checker_cmd": "cd lean && lake build %s" % MODULE, "trusted_base": TRUSTED_BASE, "forbidden_constructs": pr["forbidden_constructs"],
         "evaluations": len(ops), "distinct_nontrivial": len(nontrivial), "exhaustive": bool(thorough), "workloads": len(cases),
-        "rule": "for every workload (8 structs x 3 codecs) a fault-free traced run maps each Read/Seek call index k of the source to the API call it occurs in (open, j-th Next); then the source fails at call k for every k (thorough) / every k < 120 and every 5th beyond (quick); the constructor must fail for faults during open, otherwise Next must be false with Error() != nil after exactly the first j-1 correct rows; never a panic; the same with a failing Read that delivers its bytes together with the error (then a complete correct read is also accepted); non-trivial = distinct (workload, k) with the predicted outcome",
+        "rule": "for every workload (8 structs x 3 codecs) a fault-free traced run maps each Read/Seek call index k of the source to the API call it occurs in (open, j-th Next); then the source fails at call k for every k (thorough) / every k < 120 and every 5th beyond (quick); the constructor must fail for faults during open, otherwise Next must be false with Error() != nil after exactly the first j-1 correct rows; never a panic; the same with the error value io.EOF; the same with a failing Read that delivers its bytes together with the error (then a complete correct read is also accepted); non-trivial = distinct (workload, k) with the predicted outcome",
         "samples": [ops[0][:160], ops[len(ops) // 2][:160]],
         "tie": "reader model = generated reader on the fault-free run; per-k outcome = prediction from the fault-free trace",
         "tie_disagreements": len(tie_breaks), "property_failures_on_impl": len(prop_fail),
